@@ -123,6 +123,10 @@ def _extra_configs(tier):
     for w in W:
         for first in ('base', 'gated'):
             out.append({'block': 'GatedDomains', 'w': w, 'first': first})
+    # a user block whose port name looks like a prefixed local wire (w_t / t) or a prefixed instance (i_g / g): refused, or the
+    # text behaves like the design
+    for kind in ('wire', 'inst'):
+        out.append({'block': 'PrefixClash', 'kind': kind})
     # chains: output of one block feeding the next
     firsts = ['Add', 'Sub', 'Mul', 'Not', 'Reg', 'Counter', 'ShiftLeft', 'Mux2', 'Neg', 'SignExtend']
     seconds = ['Add', 'Sub', 'Not', 'Reg', 'Equal', 'Abs', 'ShiftRight', 'Range', 'EqualConstant', 'Comparator']
@@ -268,6 +272,18 @@ def _build_extra(d):
         for part in ((base_part, gated_part) if d['first'] == 'base' else (gated_part, base_part)):
             part()
         outs.append(('m', m))
+    elif b == 'PrefixClash':
+        a, x, r = I('a'), I('x'), O('r')
+        blk = Logic(hw, 'blk')
+        blk.addIn('a', a)
+        blk.addIn('w_t' if d['kind'] == 'wire' else 'i_g', x)
+        blk.addOut('r', r)
+        t = blk.wire('t')
+        P.Not(blk, 'inv', a, t)
+        if d['kind'] == 'wire':
+            P.And2(blk, 'g', t, x, r)
+        else:
+            P.Reg(blk, 'g', t, r, enable=x)
     elif b == 'Chain':
         w = d['w']
         mid = _chain_first(d['first'], hw, I, w)
